@@ -1036,11 +1036,16 @@ func (in *Interp) ensureModel() {
 	if in.model != nil {
 		return
 	}
-	v, m := in.check(nil, true, in.ts.Vars)
-	if v == Sat {
-		in.setModel(m)
-	} else if v == Unsat {
-		in.end("infeasible", "pc unsat at ensureModel")
+	// an undecided (timed-out) query is retried: under load the first attempt of a
+	// query that normally takes milliseconds can hit the per-query timeout
+	for attempt := 0; attempt < 3; attempt++ {
+		v, m := in.check(nil, true, in.ts.Vars)
+		if v == Sat {
+			in.setModel(m)
+			return
+		} else if v == Unsat {
+			in.end("infeasible", "pc unsat at ensureModel")
+		}
 	}
 }
 
